@@ -94,6 +94,8 @@ func (s *pSite) writeTargets(ins ssa.Instruction) []ssa.Value {
 // derefCell: the object a pointer kept in a cell refers to (as a write target).
 var timeOperatorRe = regexp.MustCompile(`^(Throttle|Sample|Buffer|Window|Delay|Timeout|Interval|Timer|Timestamp|TimeInterval)`)
 
+var resubscribingOperatorRe = regexp.MustCompile(`^(Retry|Repeat|DoWhile|While|Catch|OnErrorResumeNext|Concat)`)
+
 var limiterOperatorRe = regexp.MustCompile(`^(Take|GroupBy|WindowWhen|MergeAll|MergeMap|Map|Interval)`)
 
 type derefCell struct{ *ssa.Alloc }
@@ -296,6 +298,9 @@ func (pc *pCtx) p3Lazy(sites []*pSite, only string) {
 						aprops := append(append([]string{}, props...), "C04", "C05")
 						if limiterOperatorRe.MatchString(name) {
 							aprops = append(aprops, "C20")
+						}
+						if resubscribingOperatorRe.MatchString(name) {
+							aprops = append(aprops, "C15") // which source an attempt subscribes to, and how often
 						}
 						pc.add(aprops, fmt.Sprintf("P3/%s/apply/writes:%s", name, cellName(al)),
 							"applying an operator value to a source does not mutate state captured by the operator value (two applications are independent)", hot,
